@@ -19,20 +19,20 @@ RULE = ("a case = (device capability profile, history of setter calls / apply / 
         "each value being the vendor encoding of the public attribute at apply time; a refresh directly after the apply reads every "
         "changed setting back equal; at most one of breeze_away / breeze_mild / breezeless is true at every step; start_self_clean sends "
         "self-clean=1 (+ buzzer) at once. Exhaustive: all histories of depth <= 2 (quick) / <= 3 (thorough) over a per-profile alphabet "
-        "(two values per supported setting + apply + refresh + self-clean + the ordinary swing-mode setter with two values; the random histories also change mode, fan, setpoint, power, eco, turbo and toggle the display in between: a property setting the user assigned must still read the same afterwards) for 12 profiles, each closed by apply, refresh; plus random "
-        "histories up to length 20 over all enum values. distinct = (profile, history); non-trivial = histories with >= 1 setter")
+        "(two values per supported setting + apply + refresh + self-clean + the ordinary swing-mode setter with two values; the random histories also change mode, fan, setpoint, power, eco, turbo and toggle the display in between: a property setting the user assigned must still read the same afterwards) for 14 profiles, each closed by apply, refresh; plus random "
+        "histories up to length 20 over all enum values, in a third of which the unit refuses the writes to one setting for a while (result 0x11, value unchanged - later applies without a change must stay silent) and in another third a setter runs while apply() is waiting for the unit (that setting must go out with this or the next apply). distinct = (profile, history); non-trivial = histories with >= 1 setter")
 ASSUMPTIONS = ["only settings the profile advertises are driven", "a setting changed before an intervening refresh may or may not be "
                "transmitted (statement silent); if it is, its value must match",
                "the simulated legacy device keeps breeze-away and breezeless mutually exclusive (switching one on switches the other off)",
                "read-back is judged when the refresh directly follows the apply"]
-ANCHORS = ["device.py:AirConditioner.apply", "device.py:AirConditioner._apply_properties", "command.py:SetPropertiesCommand.tobytes",
-           "command.py:PropertyId.encode", "command.py:PropertyId.decode", "command.py:PropertiesResponse._parse",
-           "device.py:AirConditioner._update_state"]
+# reach anchors: only entry points this check calls itself or callbacks the event loop needs (robust against internal refactors);
+# that the mechanism was really exercised is demanded through MIN_NONTRIVIAL / MIN_HIST outcome counts
+ANCHORS = ["device.py:AirConditioner.apply", "device.py:AirConditioner.refresh", "device.py:AirConditioner.get_capabilities"]
 MIN_NONTRIVIAL = {"quick": 2500, "thorough": 50000}
 MIN_HIST = {"quick": {"apply-frames-checked": 3000, "readback-checked": 2000}, "thorough": {"apply-frames-checked": 80000, "readback-checked": 50000}}
 WORKERS = {"quick": 1, "thorough": 16}
-EXHAUSTIVE = {"quick": ["all histories of depth <= 2 over the per-profile alphabet, 12 profiles"],
-              "thorough": ["all histories of depth <= 3 over the per-profile alphabet, 12 profiles"]}
+EXHAUSTIVE = {"quick": ["all histories of depth <= 2 over the per-profile alphabet, 14 profiles"],
+              "thorough": ["all histories of depth <= 3 over the per-profile alphabet, 14 profiles"]}
 
 # profile = (breeze, rate, ieco, angles, selfclean)
 PROFILES = [
@@ -41,6 +41,8 @@ PROFILES = [
     ("legacy-away", 2, True, True, False), ("legacy-away", 0, False, False, True),
     ("legacy-breezeless", 5, True, False, False), ("legacy-breezeless", 0, False, True, True),
     ("none", 5, True, True, True), ("none", 0, False, False, False),
+    # the largest profiles: seven advertised property ids
+    ("legacy-both", 5, True, True, True), ("legacy-both", 2, True, True, True),
 ]
 
 
@@ -142,6 +144,17 @@ def generate(ctx, rng):
         alpha = _alphabet(profile, full=True)
         n = rng.randint(3, 20)
         ops = [rng.choice(alpha) if rng.random() < 0.7 else rng.choice([["apply"], ["refresh"], ["caps"]]) for _ in range(n)]
+        # now and then: the unit refuses writes to one setting for a while; a setter runs while an apply is waiting for the unit
+        sets = [o for o in alpha if o[0] == "set" and o[1] != "beep"]
+        if sets and j % 3 == 0:
+            k = rng.randrange(len(ops) + 1)
+            victim = rng.choice(sets)
+            ops[k:k] = [["refuse", victim[1], True], victim, ["apply"], ["apply"], ["refresh"], ["apply"], ["refuse", victim[1], False]]
+        if sets and j % 3 == 1:
+            k = rng.randrange(len(ops) + 1)
+            a, b = rng.choice(sets), rng.choice(sets)
+            if a[1] != b[1] and not ({a[1], b[1]} <= {"breeze_away", "breeze_mild", "breezeless"}):
+                ops[k:k] = [a, ["apply-while-setting", b[1], b[2]], ["refresh"]]
         yield ("rnd", j), {"profile": list(profile), "ops": ops + [["apply"], ["refresh"]]}
 
 
@@ -191,7 +204,17 @@ def run_case(ctx, case):
     model.props = _initial_props(profile)
     dev = SimDevice(net, version=2, device_id=0xC16, ac=model)
     viol = []
-    stats = {"apply": 0, "readback": 0}
+    stats = {"apply": 0, "readback": 0, "readback2": 0}
+    slow = {"on": False}
+
+    def on_exchange(conn, req, packets, meta):
+        from ..ref import acframe
+        if slow["on"] and acframe.parse_command(req)["body"][0] == 0x40:
+            slow["on"] = False
+            return [(0.3, p) for p in packets]          # the unit takes its time to acknowledge the control command
+        return None
+
+    dev.on_exchange = on_exchange
 
     async def go(loop):
         ac = AC(ip=dev.host, port=dev.port, device_id=dev.device_id)
@@ -234,6 +257,40 @@ def run_case(ctx, case):
                             userset.pop(b, None)       # breeze modes exclude each other: only the last one set is tracked
                     userset[name] = _attr(ac, name)
                 last_apply = None if last_apply and name in last_apply[1] else last_apply
+            elif op[0] == "refuse":
+                pid = _setting_id(profile, op[1])
+                (model.prop_refuse.add if op[2] else model.prop_refuse.discard)(pid)
+            elif op[0] == "apply-while-setting":
+                # apply() is waiting for the unit when another task of the application changes one more setting; that setting must
+                # go out with this apply or with the next one - once
+                import asyncio
+                _, name, val = op
+                n0 = len(model.prop_sets)
+                slow["on"] = True
+                task = asyncio.ensure_future(ac.apply())
+                await asyncio.sleep(0.1)
+                if name == "rate_select":
+                    setattr(ac, name, AC.RateSelect(val))
+                elif name.endswith("swing_angle"):
+                    setattr(ac, name, AC.SwingAngle(val))
+                else:
+                    setattr(ac, name, val)
+                want = _expected_value(ac, _setting_id(profile, name))
+                ieco_sw = ac.ieco
+                await task
+                await ac.apply()
+                slow["on"] = False
+                pid = _setting_id(profile, name)
+                hits = [v for f in model.prop_sets[n0:] for p, v in f if p == pid]
+                stats["apply"] += 1
+                if len(hits) < 1:
+                    viol.append(("changed-property-not-sent", f"{name} set while an apply was waiting for the unit was not transmitted by that apply nor by the next", step))
+                elif pid != acprops.P_IECO and want is not None and hits[-1] != want:
+                    viol.append((f"value-encoding/0x{pid:04x}", f"{name} set during an apply went out as {hits[-1].hex()}, attribute encodes to {want.hex()}", step))
+                elif pid == acprops.P_IECO and (len(hits[-1]) != 13 or hits[-1][2] != (1 if ieco_sw else 0)):
+                    viol.append(("value-encoding/ieco", f"iECO value {hits[-1].hex()} for ieco={ieco_sw}", step))
+                fresh, maybe, last_apply = set(), set(), None
+                userset.clear()
             elif op[0] == "apply":
                 n0 = len(model.prop_sets)
                 at_apply = {n: _attr(ac, n) for n in fresh}
@@ -272,7 +329,11 @@ def run_case(ctx, case):
                                 viol.append(("value-encoding/ieco", f"iECO value {value.hex()} for ieco={ieco_switch}", step))
                         elif pid in exp_vals and exp_vals[pid] is not None and value != exp_vals[pid]:
                             viol.append((f"value-encoding/0x{pid:04x}", f"property 0x{pid:04X} sent as {value.hex()} but the attribute encodes to {exp_vals[pid].hex()}", step))
-                last_apply = (step, at_apply) if fresh else None
+                at_apply = {n2: v2 for n2, v2 in at_apply.items() if _setting_id(profile, n2) not in model.prop_refuse}
+                last_apply = (step, at_apply) if at_apply else None
+                for n2 in list(userset):
+                    if _setting_id(profile, n2) in model.prop_refuse:
+                        userset.pop(n2)        # the unit refused the write: the attribute follows what the unit reports
                 fresh, maybe = set(), set()
             elif op[0] == "refresh":
                 await ac.refresh()
@@ -283,6 +344,17 @@ def run_case(ctx, case):
                         got = _attr(ac, name)
                         if got != val:
                             viol.append((f"readback/{name}", f"{name} applied as {val!r} reads back {got!r}", step))
+                    # ... and by a second client of the same unit (the application restarted): its attributes start from the
+                    # defaults, so only what its refresh really asks the unit for can read back equal
+                    if last_apply[1] and not viol:
+                        ac2 = AC(ip=dev.host, port=dev.port, device_id=dev.device_id)
+                        await ac2.get_capabilities()
+                        await ac2.refresh()
+                        for name, val in last_apply[1].items():
+                            stats["readback2"] += 1
+                            got = _attr(ac2, name)
+                            if got != val:
+                                viol.append((f"readback/{name}", f"{name} applied as {val!r} reads back {got!r} on a second client of the same unit", step))
                 last_apply = None
                 maybe |= fresh
                 fresh = set()
@@ -316,6 +388,7 @@ def run_case(ctx, case):
     ctx.count(key, nontrivial=nset > 0, kind=f"history-{profile[0]}", sample={"profile": list(profile), "ops": ops} if nset >= 2 else None)
     ctx.bump("apply-frames-checked", stats["apply"])
     ctx.bump("readback-checked", stats["readback"])
+    ctx.bump("readback-by-second-client-checked", stats["readback2"])
     for rej in model.rejected[:1]:
         ctx.violation("device-rejects-frame", f"device rejected a frame: {rej[1]}", case)
     for mech, what, step in viol[:4]:
